@@ -321,7 +321,7 @@ func c04SweepShapes() []c04Shape {
 	}
 	for i, sh := range cased {
 		for mc := 1; mc <= 3; mc++ {
-			if mc == 3 && i%2 == 1 {
+			if mc == 3 && i%4 != 2 {
 				continue
 			}
 			sh.mcase = mc
@@ -986,7 +986,13 @@ func c04Lambda(c *lib.Ctx) {
 	var cases []c04Case
 	// single-cause sweep (seed independent)
 	for _, sh := range c04SweepShapes() {
-		for _, v := range c04Vectors(sh, nil, true, 0) {
+		for vi, v := range c04Vectors(sh, nil, true, 0) {
+			// the spelling of a marker decides which section a parameter belongs to, not how a key tail
+			// is parsed: the re-spelled shapes take every vector of at most npos+3 arguments and every
+			// third of the longer ones (seed independent)
+			if sh.mcase != 0 && len(v) > sh.npos()+3 && vi%3 != 0 {
+				continue
+			}
 			cases = append(cases, c04Case{sh, v, true})
 		}
 	}
